@@ -145,7 +145,7 @@ PROPS.update({
     },
     "C04": {
         "level": "other",
-        "lean_modules": ["ApdVerif.Props.C04", "ApdVerif.Props.C11", "ApdVerif.Props.C14"],
+        "lean_modules": ["ApdVerif.Props.C04", "ApdVerif.Props.C11", "ApdVerif.Props.C14", "ApdVerif.Props.C04Cbrt"],
         "theorem_prefixes": ["C04_", "C11_sqrtLoop", "C14_parse_accepts_iff", "C14_setString_limits"],
         "streams": [{"stream": "total", "n": {"quick": 20000, "thorough": 300000}},
                     {"stream": "strings", "n": {"quick": 20000, "thorough": 400000}},
@@ -212,8 +212,8 @@ PROPS["C08"] = {
 PROPS.update({
     "C05": {
         "level": "proof",
-        "lean_modules": ["ApdVerif.Props.C05", "ApdVerif.Props.GenTieImp", "ApdVerif.Props.C05Trans"],
-        "theorem_prefixes": ["C05_", "GenTieImp_"],
+        "lean_modules": ["ApdVerif.Props.C05", "ApdVerif.Props.GenTieImp", "ApdVerif.Props.C05Trans", "ApdVerif.Props.GenTieImpTrans"],
+        "theorem_prefixes": ["C05_", "GenTieImp_", "GenTieImpT_"],
         "streams": [{"stream": "alias", "n": {"quick": 20000, "thorough": 400000}},
                     {"stream": "bigint", "n": {"quick": 8000, "thorough": 150000}}],
         "projections": ["alias", "alias-imp", "methalias", "bigint"],
@@ -222,8 +222,8 @@ PROPS.update({
     },
     "C06": {
         "level": "proof",
-        "lean_modules": ["ApdVerif.Props.C06", "ApdVerif.Props.GenTieImp", "ApdVerif.Props.C06Trans"],
-        "theorem_prefixes": ["C06_", "GenTieImp_"],
+        "lean_modules": ["ApdVerif.Props.C06", "ApdVerif.Props.GenTieImp", "ApdVerif.Props.C06Trans", "ApdVerif.Props.GenTieImpTrans"],
+        "theorem_prefixes": ["C06_", "GenTieImp_", "GenTieImpT_"],
         "streams": [{"stream": "alias", "n": {"quick": 20000, "thorough": 400000}},
                     # every other stream, for the shared-state snapshots only (C06: constants and lookup tables unchanged by any call)
                     {"stream": "digits", "n": {"quick": 2000, "thorough": 40000}, "projections": []},
